@@ -43,7 +43,7 @@ func genC14Tape(r *Rand, n int) []int {
 		case 1:
 			t[i] = dConsume
 		case 2:
-			t[i] = mkDec(dError, r.Intn(3)+3*r.Intn(3))
+			t[i] = mkDec(dError, r.Intn(nErrKinds)+nErrKinds*r.Intn(3))
 		case 3:
 			// re-enter: bias towards the enclosing buffer (mode 0) and scribbling
 			arg := r.Intn(4) + 4*r.Intn(6)
